@@ -60,6 +60,7 @@ theorem flatten_ok {mods : Nat → Option FMod} {fuel : Nat} {top : FMod} {F : F
     (h : flatten mods fuel top = .ok F) :
     ∃ nodes, walk mods fuel top [] (top.signals.map (fun s => (s, ([], s))) ++ top.ports.map (fun s => (s, ([], s)))) = some nodes ∧
       netClash (usedIds top.ports nodes) = false ∧ leafClash nodes = false ∧
+      crossClash (usedIds top.ports nodes) nodes = false ∧
       F.ports = top.ports ∧
       F.insts = nodes.map (fun n => { name := leafName n, kind := n.kind, conns := n.conns.map fun c => (c.1, netName c.2) }) := by
   unfold flatten at h
@@ -72,7 +73,7 @@ theorem flatten_ok {mods : Nat → Option FMod} {fuel : Nat} {top : FMod} {F : F
       simp only [Bool.or_eq_true, not_or, Bool.not_eq_true] at hc
       injection h with h
       subst h
-      exact ⟨nodes, hw, hc.1, hc.2, rfl, rfl⟩
+      exact ⟨nodes, hw, hc.1.1, hc.1.2, hc.2, rfl, rfl⟩
 
 /-- Two leaf terminals share a signal of the flat module iff they are on one net of the hierarchy;
     a leaf terminal is on a port of the flat module iff it is on that port's net. -/
@@ -81,7 +82,7 @@ theorem flat_same_net_iff {mods : Nat → Option FMod} {fuel : Nat} {top : FMod}
     ∃ nodes, walk mods fuel top [] (top.signals.map (fun s => (s, ([], s))) ++ top.ports.map (fun s => (s, ([], s)))) = some nodes ∧
       (∀ n₁ ∈ nodes, ∀ n₂ ∈ nodes, ∀ c₁ ∈ n₁.conns, ∀ c₂ ∈ n₂.conns, (netName c₁.2 = netName c₂.2 ↔ c₁.2 = c₂.2)) ∧
       (∀ n ∈ nodes, ∀ c ∈ n.conns, ∀ q ∈ top.ports, (netName c.2 = q ↔ c.2 = ([], q))) := by
-  obtain ⟨nodes, hw, hnc, _, _, _⟩ := flatten_ok h
+  obtain ⟨nodes, hw, hnc, _, _, _, _⟩ := flatten_ok h
   refine ⟨nodes, hw, ?_, ?_⟩
   · intro n₁ h₁ n₂ h₂ c₁ hc₁ c₂ hc₂
     exact ⟨fun e => netClash_false hnc (mem_usedIds_of_conn h₁ hc₁) (mem_usedIds_of_conn h₂ hc₂) e, fun e => by rw [e]⟩
@@ -95,12 +96,38 @@ theorem flat_same_net_iff {mods : Nat → Option FMod} {fuel : Nat} {top : FMod}
 
 theorem collision_rejected {mods : Nat → Option FMod} {fuel : Nat} {top : FMod} {nodes : List FNode}
     (hw : walk mods fuel top [] (top.signals.map (fun s => (s, ([], s))) ++ top.ports.map (fun s => (s, ([], s)))) = some nodes)
-    (hc : netClash (usedIds top.ports nodes) = true ∨ leafClash nodes = true) :
+    (hc : netClash (usedIds top.ports nodes) = true ∨ leafClash nodes = true ∨ crossClash (usedIds top.ports nodes) nodes = true) :
     flatten mods fuel top = .error .collision := by
   unfold flatten
   rw [hw]
   simp only
-  rcases hc with hc | hc <;> simp [hc]
+  rcases hc with hc | hc | hc <;> simp [hc]
+
+/-- In a flat module that was returned no instance carries the name of a net: every name of the flat module stands for one
+    thing (adding the instance under a net's name would have put it in the net's place). -/
+theorem flat_instance_names_are_not_net_names {mods : Nat → Option FMod} {fuel : Nat} {top : FMod} {F : Flat}
+    (h : flatten mods fuel top = .ok F) :
+    ∀ i ∈ F.insts, i.name ∉ F.ports ∧ ∀ j ∈ F.insts, ∀ c ∈ j.conns, i.name ≠ c.2 := by
+  obtain ⟨nodes, _, _, _, hx, hp, hi⟩ := flatten_ok h
+  intro i hiin
+  rw [hi] at hiin
+  obtain ⟨n, hn, rfl⟩ := List.mem_map.mp hiin
+  have hno : ∀ id ∈ usedIds top.ports nodes, leafName n ≠ netName id := by
+    intro id hid e
+    have : crossClash (usedIds top.ports nodes) nodes = true := by
+      unfold crossClash
+      rw [List.any_eq_true]
+      exact ⟨n, hn, by rw [List.any_eq_true]; exact ⟨id, hid, by simpa using e⟩⟩
+    rw [hx] at this; cases this
+  constructor
+  · intro hq
+    rw [hp] at hq
+    exact hno ([], _) (mem_usedIds_of_port hq) (by simp [netName, joinNames])
+  · intro j hj c hc e
+    rw [hi] at hj
+    obtain ⟨n₂, hn₂, rfl⟩ := List.mem_map.mp hj
+    obtain ⟨c₀, hc₀, rfl⟩ := List.mem_map.mp hc
+    exact hno c₀.2 (mem_usedIds_of_conn hn₂ hc₀) e
 
 /-! ### `walk` -/
 
@@ -184,7 +211,7 @@ theorem walk_paths (mods : Nat → Option FMod) : ∀ (fuel : Nat) (m : FMod) (p
 theorem flat_only_leaves_one_per_leaf {mods : Nat → Option FMod} {fuel : Nat} {top : FMod} {F : Flat}
     (h : flatten mods fuel top = .ok F) :
     F.insts.length = leafCount mods fuel top ∧ (F.insts.map (·.name)).Nodup ∧ F.ports = top.ports := by
-  obtain ⟨nodes, hw, _, hlc, hp, hi⟩ := flatten_ok h
+  obtain ⟨nodes, hw, _, hlc, _, hp, hi⟩ := flatten_ok h
   refine ⟨?_, ?_, hp⟩
   · rw [hi, List.length_map]; exact walk_leaf_count mods fuel top _ _ nodes hw
   · rw [hi, List.map_map]
@@ -245,7 +272,7 @@ theorem flatten_preserves_connectivity {mods : Nat → Option FMod} {fuel : Nat}
           (netName c₁.2 = netName c₂.2 ↔ Connected mods top (π₁, s₁) (π₂, s₂)) ∧
           -- on port q of the flat module  ⇔  connected to port q of the top module
           (∀ q ∈ top.ports, netName c₁.2 = q ↔ Connected mods top (π₁, s₁) ([], q)) := by
-  obtain ⟨nodes, hw, hnc, _, _, hi⟩ := flatten_ok h
+  obtain ⟨nodes, hw, hnc, _, _, _, hi⟩ := flatten_ok h
   refine ⟨nodes, hw, hi, ?_⟩
   intro n₁ h₁ n₂ h₂ c₁ hc₁ c₂ hc₂
   obtain ⟨π₁, π₂, m₁, m₂, i₁, i₂, s₁, s₂, _, _, hp₁, hs₁, _, _, hp₂, hs₂, hiff, hport⟩ :=
@@ -272,5 +299,9 @@ def tbl : Nat → Option FMod := fun k => if k = 0 then some inner else none
 example : (match flatten tbl 3 topOk with | .ok F => F.insts.map (·.name) == [['i', '1', ':', 'r', '1'], ['i', '1', ':', 'r', '2']] && F.signals == [['i', '1', ':', 'x']] | _ => false) = true := by
   decide +kernel
 example : (match flatten tbl 3 topClash with | .error .collision => true | _ => false) = true := by decide +kernel
+/-- a top-level signal named like the joined path of a leaf instance -/
+def topCross : FMod := ⟨['T'], [['p'], ['q']], [['i', '1', ':', 'r', '1']],
+  [⟨['r'], .leaf "R", [(['p'], ['i', '1', ':', 'r', '1']), (['n'], ['q'])]⟩] ++ topOk.insts⟩
+example : (match flatten tbl 3 topCross with | .error .collision => true | _ => false) = true := by decide +kernel
 
 end Hdl21.Props.C16
